@@ -498,9 +498,89 @@ def check_case(ctx, R, progs, schedule, kind):
     return impl
 
 
+def plain_thread_scenarios(ctx):
+    """real threads, no scheduling shim: facts that need two lock objects, or a timed attempt whose budget is spent"""
+    import threading
+    from nobodd.locks import RWLock
+    def in_thread(fn, wait=5):
+        box = []
+        th = threading.Thread(target=lambda: box.append(fn()))
+        th.start(); th.join(wait)
+        return box[0] if box else 'STUCK'
+    # 1. two independent locks: holding one says nothing about the other
+    a, b = RWLock(), RWLock()
+    problems = []
+    a.write.acquire()
+    b.read.acquire()                                    # this thread now holds b's read side for real
+    if in_thread(lambda: b.write.acquire(blocking=False)) is not False:
+        problems.append('a thread holds the read side of lock B (taken while it also held the write side of lock A); another thread obtained the write side of B')
+    b.read.release()
+    a.write.release()
+    a.read.acquire()
+    if in_thread(lambda: (b.write.acquire(blocking=False), b.write.release())[0]) is not True:
+        problems.append('lock B is free but cannot be taken while another thread holds lock A')
+    b.write.acquire()                                   # nested in A.read: must really take B
+    if in_thread(lambda: b.read.acquire(blocking=False)) is not False:
+        problems.append('a thread holds the write side of lock B (taken inside the read side of lock A); another thread obtained the read side of B')
+    b.write.release()
+    a.read.release()
+    ctx.case(('two-locks',), True, 'two-locks')
+    if problems:
+        ctx.violation('locks.real/two-lock-objects', problems[0], dict(problems=problems))
+        return
+    # 2. timed attempts whose budget is already spent: they fail, raise nothing and change nothing
+    for label, timeout in (('timeout=0', 0), ('timeout=1e-9', 1e-9)):
+        lock = RWLock()
+        other_in, other_go = threading.Event(), threading.Event()
+        def other():
+            with lock.read:
+                other_in.set(); other_go.wait(10)
+        th = threading.Thread(target=other); th.start(); other_in.wait(5)
+        outcome = None
+        try:
+            lock.read.acquire()
+            got = lock.write.acquire(timeout=timeout)              # an upgrade that cannot succeed: another reader is inside
+            outcome = ('returned', got)
+            if got:
+                lock.write.release()
+            lock.read.release()
+        except BaseException as e:      # noqa: BLE001
+            outcome = ('raised', type(e).__name__, str(e)[:80])
+        other_go.set(); th.join(5)
+        free = in_thread(lambda: (lock.write.acquire(timeout=2) and (lock.write.release() or True)))
+        ctx.case(('timed-upgrade', label), True, 'timed-upgrade-spent')
+        if outcome != ('returned', False) or free is not True:
+            ctx.violation('locks.real/timed-attempt-with-spent-budget', f'upgrade with {label} while another reader holds the lock: {outcome}; '
+                          f'afterwards the lock can be taken for writing: {free}', dict(outcome=outcome, free=str(free)))
+            return
+        # the same for a plain write attempt against a writer
+        lock = RWLock()
+        lock.write.acquire()
+        r = in_thread(lambda: _timed_write(lock, timeout))
+        lock.write.release()
+        free = in_thread(lambda: (lock.write.acquire(timeout=2) and (lock.write.release() or True)))
+        if r != ('returned', False) or free is not True:
+            ctx.violation('locks.real/timed-attempt-with-spent-budget', f'write.acquire({label}) against a writer: {r}; afterwards the lock can be taken: {free}',
+                          dict(outcome=r, free=str(free)))
+            return
+
+
+def _timed_write(lock, timeout):
+    try:
+        got = lock.write.acquire(timeout=timeout)
+        if got:
+            lock.write.release()
+        return ('returned', got)
+    except BaseException as e:      # noqa: BLE001
+        return ('raised', type(e).__name__, str(e)[:80])
+
+
 def run(ctx, build):
     rng = ctx.rng
     infra = None
+    plain_thread_scenarios(ctx)
+    if ctx.violations:
+        return
     try:
         R = ctx.runner('Locks')
         facts = R.call('facts', [])
